@@ -11,6 +11,7 @@ import (
 	sdked25519 "github.com/cosmos/cosmos-sdk/crypto/keys/ed25519"
 	"os"
 	"sort"
+	"strings"
 	"time"
 
 	dbm "github.com/cometbft/cometbft-db"
@@ -291,7 +292,10 @@ func (w *World) buildGenesis() (app.GenesisState, error) {
 	var genAccs []authtypes.GenesisAccount
 	var bals []banktypes.Balance
 	genAccs = append(genAccs, authtypes.NewBaseAccount(v.Addr, v.Priv.PubKey(), 0, 0))
-	bals = append(bals, banktypes.Balance{Address: v.Addr.String(), Coins: sdk.NewCoins(sdk.NewInt64Coin(StakeDen, 1000000000))})
+	// two foreign denominations that sort before / after the native one ("aaa" < "nund" < "other" < "stake" < "zzz"):
+	// supply listings are paged across them (C17)
+	bals = append(bals, banktypes.Balance{Address: v.Addr.String(), Coins: sdk.NewCoins(sdk.NewInt64Coin(StakeDen, 1000000000),
+		sdk.NewInt64Coin("aaa", 7), sdk.NewInt64Coin("zzz", 9))})
 	w.Names = append([]string{}, g.Accts...)
 	for _, n := range g.Accts {
 		ac := w.addAcct(n)
@@ -369,6 +373,12 @@ func (w *World) buildGenesis() (app.GenesisState, error) {
 func (w *World) addrOrRaw(n string) string {
 	if a, ok := w.Accts[n]; ok {
 		return a.Addr.String()
+	}
+	// " A1" / "A1 " / "\tA1": a well-formed address with surrounding white space (a malformed entry)
+	if t := strings.TrimSpace(n); t != n && t != "" {
+		if a, ok := w.Accts[t]; ok {
+			return strings.Replace(n, t, a.Addr.String(), 1)
+		}
 	}
 	switch n {
 	case "ent":
